@@ -401,15 +401,16 @@ def work_instances(rng, big=False):
     combos = [("min", False), ("max", False), ("min", True), ("max", True)]
     sizes = [40, 300, 560, 1100, 2600, 5200] + ([26000] if big else [])
     for k_i, K in enumerate(sizes):
-        picks = combos if K <= 1100 else list(dict.fromkeys([("max", False), combos[k_i % 4], ("min", False)]))[:2]
+        picks = combos if K <= 2600 else [("max", False), ("min", False)]      # every sign/sense combination at every threshold
         if K >= 26000:
             picks = [rng.choice(combos)]
         for sense, flipped in picks:
             inst = late_improvement_trap(rng, K + rng.randint(0, K // 10), sense, flipped)
             big_nodes = {"max_nodes": 10 * 100000} if K >= 20000 else {}
             vs = [dict(base, **big_nodes)]
-            if K <= 1100:
+            if K <= 2600:
                 vs.append(dict(heuristics=False, **big_nodes))
+            if K <= 1100:
                 vs.append(dict(heuristics=False, solution_limit=rng.choice([2, 50]), **big_nodes))
             out.append((inst, vs))
     for K in [40, 300, 1100] + ([2600] if big else []):
